@@ -71,7 +71,7 @@ def run_directed(chk, n):
         cons = lambda: comp("q", only=r.random() < 0.3)
         n_cons = r.randint(1, 3)
         many = [cons() for _ in range(n_cons)]
-        schema = r.randrange(6)
+        schema = r.randrange(7)
         wrapper = {"name": "p", "data": [], "template": []}
         if schema == 0:      # provider around a slot; consumers arrive through the fill
             wrapper["template"] = [prov(key, lit("IN"), [T("("), slot("s1", [T("d")]), T(")")])]
@@ -88,6 +88,9 @@ def run_directed(chk, n):
         elif schema == 4:    # provider inside a component template, consumers as descendants two levels down
             wrapper["template"] = [prov(key, lit("T"), [comp("m")])]
             page = [comp("p"), T("|")] + many
+        elif schema == 5:    # the same key around the fill site AND around the slot: the slot's provider is nearer
+            wrapper["template"] = [prov(key, lit("IN"), [T("("), slot("s1", [T("d")]), T(")")])]
+            page = [prov(key, lit("OUT"), [comp("p", [fill("s1", many)]), T("|")] + many)]
         else:                # outside every provider
             wrapper["template"] = [slot("s1", many)]
             page = [comp("p"), prov(other, lit("Z"), many)]
